@@ -162,7 +162,7 @@ def extract_entity(repo, ent):
     if kind == 'region':
         e = _match_lines(lines, ent['end'], 'end', ent['file'], first=k,
                          occurrence=ent.get('end_occurrence', 1))
-        a, b = k, e
+        a, b = k, e + int(ent.get('end_offset', 0))
     else:
         if kind in ('func', 'block'):
             lead = ent.get('lead', 'auto')
@@ -437,10 +437,28 @@ def _rewrite_jumps(body, sfx=''):
     return out
 
 
+def _strip_comments(t):
+    t = re.sub(r'//[^\n]*', '', t)
+    t = re.sub(r'/\*[\s\S]*?\*/', '', t)
+    t = re.sub(r'"(?:\\.|[^"\\])*"', '""', t)
+    return t
+
+
 def extract_loopfn(repo, ent):
-    f = extract_entity(repo, dict(ent, kind='func'))
+    if ent.get('header'):
+        # a statement region of a larger function, wrapped (mechanically) into a function of its own:
+        # "header" is supplied by the unit, the body is the verbatim region
+        f = extract_entity(repo, dict(ent, kind='region', start=ent['region_start'], end=ent['region_end']))
+        f['text'] = ent['header'] + '\n{\n' + f['text'] + '}\n'
+        f['first_line'] -= 2
+    else:
+        f = extract_entity(repo, dict(ent, kind='func'))
     text = f['text']
-    ob = _find_open_brace(text, text.index(re.search(ent['start'], text, flags=re.M).group(0)))
+    for r in ent.get('pre_rewrites', []):
+        text, n = re.subn(r['pattern'], r['repl'], text, flags=re.M)
+        if n != r['count']:
+            raise ExtractError('pre-rewrite %s fired %d times, must fire exactly %d' % (r['id'], n, r['count']))
+    ob = _find_open_brace(text, text.index(re.search(ent['start'], text, flags=re.M).group(0)) if not ent.get('header') else 0)
     header = text[:ob]
     inner = text[ob + 1:text.rindex('}')]
     hits = [m for m in re.finditer(ent['loop_start'], inner, flags=re.M)]
@@ -484,9 +502,10 @@ def extract_loopfn(repo, ent):
     sfx = '' if P == 'LC' else '_' + P
     body2 = _rewrite_jumps(body, sfx)
     name = ent['name']
-    if len(re.findall(r'\b%s\b' % re.escape(name), header)) != 1:
+    name_rx = r'(?<![\w:])%s(?![\w])' % re.escape(name)
+    if len(re.findall(name_rx, header)) != 1:
         raise ExtractError('function name %s not found exactly once in its header' % name)
-    header2 = re.sub(r'\b%s\b' % re.escape(name), name + '__lc', header)
+    header2 = re.sub(name_rx, lambda m: name + '__lc', header)
     P = ent.get('macro_prefix', 'LC')
     line0 = f['first_line']
     src = os.path.join(repo, ent['file'])
@@ -553,6 +572,20 @@ def extract_loopfn(repo, ent):
     g.append(ln(post) if post.strip() else '')
     g.append(post + '\n}\n')
     gen = ''.join(g)
+    # which locals/parameters does the loop assign?  (used by run_unit to check that the sidecar
+    # HAVOC macro covers them: a loop-carried variable that is not havocked would make the rule unsound)
+    decl_rx = re.compile(r'(?:^|[;{}(,])\s*(?:const\s+)?[A-Za-z_][\w:<>,\s\*&]*?[\s\*&]([A-Za-z_]\w*)\s*(?=[=;,)\[(])', re.M)
+    cands = set(m.group(1) for m in decl_rx.finditer(header + ';' + pre + ';' + init + ';'))
+    cands -= set(['return', 'if', 'else', 'for', 'while', 'do', 'const', 'static', 'unsigned', 'int', 'char', 'bool', 'long'])
+    scan = _strip_comments(body + ';' + incr + ';' + cond)
+    assigned = []
+    for nm in sorted(cands):
+        q = re.escape(nm)
+        if re.search(r'(?<![\w.>])%s\s*(?:\[[^\]]*\]\s*)?(?:=(?!=)|\+=|-=|\*=|/=|%%=|\|=|&=|\^=|<<=|>>=|\+\+|--)' % q, scan) \
+           or re.search(r'(?:\+\+|--)\s*%s\b' % q, scan) \
+           or re.search(r'(?<![\w.>])%s\s*(?:\.|->)\s*(?:push_back|clear|insert|erase|reset|swap|pop_back|append|assign|resize)\b' % q, scan) \
+           or re.search(r'(?<![\w&])&\s*%s\b(?!\s*(?:\.|->|\[))' % q, scan):
+            assigned.append(nm)
     pieces = {'header': header, 'pre': pre, 'init': init, 'cond': cond, 'incr': incr, 'body': body, 'post': post}
     if ''.join([header, '{', pre]) not in text:
         raise ExtractError('internal: split does not reassemble')
@@ -560,5 +593,8 @@ def extract_loopfn(repo, ent):
         'id': ent['id'], 'file': ent['file'], 'kind': 'loopfn',
         'first_line': f['first_line'], 'last_line': f['last_line'],
         'sha256': f['sha256'], 'text': gen, 'no_line_directive': True,
+        'pre_rewrites': [{'id': r['id'], 'count': r['count'], 'pattern': r['pattern'], 'repl': r['repl'], 'why': r.get('why', '')} for r in ent.get('pre_rewrites', [])],
+        'wrapped_region_header': ent.get('header'), 'unroll': ent.get('unroll'),
+        'loop_assigned_locals': assigned, 'macro_prefix': P,
         'loop_kind': k, 'pieces_sha256': {p: hashlib.sha256(v.encode()).hexdigest()[:16] for p, v in pieces.items()},
     }
